@@ -23,6 +23,8 @@ WEAK = [  # (cfg, expected violated invariant / property, version)
     ("C12_weak_CacheNotUpdatedOnCommit.cfg", "InvCommittedGone", "v0"),
     ("C12_weak_RecheckKeepsRejected.cfg", "PropRecheckFilters", "v0"),
     ("C12_weak_RecheckKeepsRejected_v1.cfg", "PropRecheckFilters", "v1"),
+    ("C12_weak_NonAtomicAdmission.cfg", "InvBounded", "v0"),
+    ("C12_weak_NonAtomicAdmission_unique.cfg", "InvUnique", "v0"),
     ("C12_v1_strict.cfg", "InvCommittedGoneStrict", "v1"),
 ]
 
@@ -340,16 +342,14 @@ def run_harness(ctx, version, runs, nrandom, randlen, nconc):
         json.dump({"runs": runs, "random": nrandom, "randomLen": randlen, "conc": nconc}, f)
     out = ctx.subdir("c12-%s-out" % version)
     binp = ctx.go_build_test("mempool/" + version, ["zz_verif_c12_test.go"], name="c12_" + version)
-    rc, txt = ctx.run_test(binp, "^TestVerifC12$", {"VERIF_IN": inp, "VERIF_OUT": out}, timeout=1500,
-                           label="harness-" + version)
+    rc, txt = ctx.run_test(binp, "^TestVerifC12$", {"VERIF_IN": inp, "VERIF_OUT": out},
+                           timeout=600 if ctx.tier == "quick" else 1800, label="harness-" + version)
     if rc != 0:
         ctx.save_log("harness-" + version, txt)
         raise Undecided("C12 %s harness failed (rc=%d): %s" % (version, rc, txt[-1500:]))
     rows = core.read_ndjson(os.path.join(out, version + ".ndjson"))
     with open(os.path.join(out, version + ".summary.json")) as f:
         summ = json.load(f)
-    if summ.get("Panics"):
-        raise Undecided("C12 %s harness: the real mempool panicked under a schedule: %s" % (version, summ["Panics"][:3]))
     if summ.get("Misuse"):
         raise Undecided("C12 %s harness: scripted ABCI client used outside its contract: %s" % (version, summ["Misuse"][:3]))
     return rows, summ
@@ -433,6 +433,7 @@ def run(ctx):
         "attack_schedules": info["attack_schedules"],
         "events_by_kind": kinds,
         "harness": {"v0": summ0, "v1": summ1},
+        "panics_of_the_real_mempool": ((summ0.get("Panics") or []) + (summ1.get("Panics") or []))[:5],
         "random_runs_per_version": nrandom,
         "concurrent_runs_per_version": nconc,
         "conformance_drift": [{"what": d["what"], "version": d["version"], "step": core.abridge_row(d["row"])
@@ -443,6 +444,11 @@ def run(ctx):
         "known_findings_reproduced": dict(verdict.known),
     }
     rc = verdict.finish()
+    panics = (summ0.get("Panics") or []) + (summ1.get("Panics") or [])
+    if panics and not verdict.new:
+        # the run in which the real mempool panicked ends there; everything observed before is
+        # validated above -- without a property failure a panic alone decides nothing
+        raise Undecided("the real mempool panicked under a schedule and no property failure was observed: %s" % panics[:3])
     if info["dev_skip"]:
         raise Undecided("development mode (C12_DEV_SKIP=%s): parts of the check were skipped" % ",".join(info["dev_skip"]))
     ctx.write_evidence(coverage, [
